@@ -72,7 +72,7 @@ def build(tier, seed):
     other = [c for c in cs if c.get("pl") == "twofiles" or "reeval" in c]
     tasks = [{"cases": normal[i : i + BATCH]} for i in range(0, len(normal), BATCH)]
     tasks += [{"singles": other[i : i + 24]} for i in range(0, len(other), 24)]
-    tasks += [{"plugin": k} for k in ("parametrize", "import", "twofiles")]
+    tasks += [{"plugin": k} for k in ("parametrize", "import", "twofiles", "isolation")]
     return tasks
 
 
@@ -325,6 +325,36 @@ def _plugin(kind):
         got = {k: snapshot_calls(v)[0]["arg_text"].strip() for k, v in after.items() if k.endswith("test_a.py") or k.endswith("test_b.py")}
         if got != {"test_a.py": "2", "test_b.py": "9", "sub/test_a.py": "4"}:
             viol.append({"case": {"plugin": kind}, "what": "site-aggregate-differs", "detail": "identical text in several files: %s\n%s" % (got, r["out"][-600:])})
+    elif kind == "isolation":
+        # what is written for the sites of one file must not depend on which other files take part in the session
+        opq = ("class Opaque:\n    def __init__(self, n):\n        self.n = n\n    def __repr__(self):\n        return '<Opaque %d>' % self.n\n"
+               "    def __eq__(self, o):\n        return self.n == o.n if isinstance(o, Opaque) else NotImplemented\n\n\n")
+        others = {
+            "hasrepr": "from inline_snapshot import snapshot\n\n\n" + opq + "def test_o():\n    assert Opaque(1) == snapshot()\n",
+            "external": "from inline_snapshot import snapshot, outsource\n\n\ndef test_o():\n    assert outsource('data') == snapshot()\n",
+            "same-sites": "from inline_snapshot import snapshot\n\n\ndef test_b():\n    assert 7 <= snapshot()\n    assert 'x' in snapshot(['y'])\n",
+            "failing": "from inline_snapshot import snapshot\n\n\ndef test_o():\n    assert 1 == snapshot(2)\n    raise ValueError('x')\n",
+        }
+        subject = "from inline_snapshot import snapshot\n\n\ndef test_b():\n    assert 5 <= snapshot()\n    assert 'a' in snapshot(['b'])\n    assert [1, 2] == snapshot([1])\n"
+        alone = None
+        for name, other in [(None, None)] + sorted(others.items()):
+            for oname in ("test_a.py", "test_c.py"):
+                files = {"test_b.py": subject, "pyproject.toml": ""}
+                if other is not None:
+                    files[oname] = other
+                d = plugin.mk_project(files)
+                try:
+                    r = plugin.session(d, ["--inline-snapshot=create,fix"])
+                    got = plugin.listing(d, text=True)["test_b.py"]
+                finally:
+                    plugin.cleanup()
+                if alone is None:
+                    alone = got
+                elif got != alone:
+                    viol.append({"case": {"plugin": kind}, "what": "site-result-depends-on-other-files",
+                                 "detail": "with %s as %s test_b.py becomes\n%s\ninstead of\n%s" % (name, oname, got[-400:], alone[-400:])})
+                if other is None:
+                    break
     return viol
 
 
